@@ -1657,6 +1657,43 @@ def replace_for_loops_with_dict_comp(source: str) -> str:
             yield n2, None, transaction
 
 
+def _reads_names_outside(root: ast.AST, loop: ast.For, names: Collection[str]) -> bool:
+    """Whether the scope around loop reads any of names outside of it, other than in places
+    that bind the name themselves (other loops and comprehensions)."""
+    scopes = [
+        scope
+        for scope in core.walk(root, (ast.FunctionDef, ast.AsyncFunctionDef, ast.Lambda))
+        if any(node is loop for node in ast.walk(scope))
+    ]
+    scope = min(scopes, key=lambda node: sum(1 for _ in ast.walk(node)), default=root)
+    excluded = set(ast.walk(loop))
+    for node in ast.walk(scope):
+        if node is loop:
+            continue
+        if isinstance(node, (ast.For, ast.AsyncFor)):
+            bound = {name.id for name in core.walk(node.target, ast.Name)}
+            regions = node.body
+        elif isinstance(node, (ast.ListComp, ast.SetComp, ast.DictComp, ast.GeneratorExp)):
+            bound = {
+                name.id
+                for comprehension in node.generators
+                for name in core.walk(comprehension.target, ast.Name)
+            }
+            regions = [node]
+        else:
+            continue
+        if bound & set(names):
+            for region in regions:
+                excluded.update(
+                    name for name in core.walk(region, ast.Name) if name.id in bound
+                )
+
+    return any(
+        node.id in names and node not in excluded
+        for node in core.walk(scope, ast.Name(ctx=ast.Load))
+    )
+
+
 @processing.fix
 def replace_for_loops_with_set_list_comp(source: str) -> str:
     assign_template = ast.Assign(
@@ -1691,6 +1728,15 @@ def replace_for_loops_with_set_list_comp(source: str) -> str:
         for comprehension in generators:
             if len(comprehension.ifs) > 1:
                 comprehension.ifs = [ast.BoolOp(op=ast.And(), values=comprehension.ifs)]
+
+        # The variables of a comprehension are gone when it is done, those of a loop are not
+        loop_variables = {
+            name.id
+            for comprehension in generators
+            for name in core.walk(comprehension.target, ast.Name)
+        }
+        if _reads_names_outside(root, n2, loop_variables):
+            continue
 
         target_alter_template = ast.Expr(
             value=ast.Call(
